@@ -27,7 +27,7 @@ RULE = ('fixed part (exhaustive): for each of the 3 families all 120 indices -> 
         '(c) fit linearity: two data sets (exact combinations or generic smooth+noise data) and random a,b; '
         '(d) ZernikeOPD on a random bundled lens.  Non-trivial: every exhaustive case; poly cases with N>=2; fit cases '
         'with N>=4; OPD cases with N>=4 and rms OPD > 1e-3 waves.  distinct = distinct case hash')
-TIERS = {'quick': dict(shards=12, cases=110), 'thorough': dict(shards=16, cases=1400)}
+TIERS = {'quick': dict(shards=12, cases=110), 'thorough': dict(shards=16, cases=1100)}
 MIN_NONTRIVIAL = {'quick': 800, 'thorough': 12000}
 MIN_EVALS = {
     'index-count': 3, 'index-rule': 360, 'index-wellformed': 360, 'index-polynomial': 720,
@@ -46,8 +46,12 @@ ASSUMPTIONS = [
     'the sign of the sine polynomials is a convention the statement does not fix: it is adopted per term from a '
     'one-point probe of the library (sign bit only)',
     'fit tolerances: scipy.optimize.least_squares with a 2-point finite-difference Jacobian and ftol=xtol=gtol=1e-8 is '
-    'the documented mechanism, so recovery is demanded to 1e-6 of max|coeff| (observed worst ~1e-9; swapping two terms '
-    'or dropping one changes a coefficient by O(1) of max|coeff|)',
+    'the documented mechanism, so recovery is demanded to 1e-6 of max|coeff| (observed worst 3e-9; swapping two terms '
+    'or dropping one changes a coefficient by O(1) of max|coeff|) and linearity in the data to 1e-4 of the data '
+    'magnitude (observed worst 5e-7 with non-representable data, where the solver stops on ftol)',
+    'known mechanism "absolute-gtol": least_squares stops at the all-zero initial guess when ||A^T z||_inf < 1e-8 '
+    '(scipy default gtol, absolute), so data of magnitude <~1e-10 are fitted by all-zero coefficients; cases whose '
+    'oracle gradient norm is below 3e-8 carry that flag and the all-zero prediction as the as-built model',
     'the sampled OPD of a lens is taken from an independent OPD(optic, field, wavelength, num_rings) run '
     '(same hexapolar distribution); its correctness is C09\'s subject, not C10\'s',
     '"well-spread" sample sets = oracle design matrix condition number <= 200',
